@@ -454,9 +454,10 @@ def finish_pair(rng, PA, PB, placement, ang_radius, margin, stream):
             "cross_angle": min_cross_angle(PA, PB), "node_sep": node_sep}
 
 
-def gen_pair_near_parallel(rng, na, placement, margin):
-    """B has an edge crossing an edge of A at a tiny angle (both polygons convex, vertices >= margin from the other's edges)."""
-    ang_radius = rng.choice([0.1, 0.3, 0.6]) * rng.uniform(0.6, 1.0)
+def gen_pair_near_parallel(rng, na, placement, margin, long_edges=False):
+    """B has an edge crossing an edge of A at a tiny angle (both polygons convex, vertices >= margin from the other's edges).
+    long_edges: edges of ~0.5..1 rad and an angle of 1.5e-4..4.3e-4 rad, so that all vertices and crossings stay > 6e-5 rad apart."""
+    ang_radius = rng.uniform(0.95, 1.2) if long_edges else rng.choice([0.1, 0.3, 0.6]) * rng.uniform(0.6, 1.0)
     ra = math.tan(ang_radius) * 0.5
     PA = planar_convex(rng, na, ra)
     i = rng.randrange(na)
@@ -467,6 +468,9 @@ def gen_pair_near_parallel(rng, na, placement, margin):
     m = (a0[0] + t * L * u[0], a0[1] + t * L * u[1])
     theta = 10 ** rng.uniform(-4.7, -3.0) * rng.choice([-1, 1])
     half = L * rng.uniform(0.15, 0.3)
+    if long_edges:
+        theta = rng.uniform(1.5e-4, 4.3e-4) * rng.choice([-1, 1])
+        half = L * rng.uniform(0.3, 0.42)
     c, s = math.cos(theta), math.sin(theta)
     w = (c * u[0] - s * u[1], s * u[0] + c * u[1])
     # clockwise polygon: interior is to the right of a0->a1, i.e. in direction (u_y, -u_x)
